@@ -4,6 +4,7 @@ import (
 	"encoding/json"
 	"fmt"
 	"strings"
+	"time"
 
 	"github.com/Trendyol/go-dcp/couchbase"
 	"github.com/Trendyol/go-dcp/helpers"
@@ -123,6 +124,8 @@ type LoopParams struct {
 	Sched bool `json:"sched"` // fixed history deliver,ack,commit,tick,tick explored over schedules instead
 	// Failover adds "fail-over without rollback" to the alphabet
 	Failover bool `json:"failover"`
+	// Rebalance adds a real Rebalance() (save, close, re-open from the store) to the alphabet instead
+	Rebalance bool `json:"rebalance"`
 }
 
 func init() {
@@ -148,6 +151,10 @@ func init() {
 			}
 			return []Instance{
 				{Scenario: "c14_loop", Params: mustJSON(LoopParams{Depth: d}), Bound: 0, Shards: 8},
+				// the filter for reserved keys does not depend on where the library keeps its own documents
+				{Scenario: "pipe", Params: mustJSON(PipeParams{Mode: "gen", Alphabet: []string{"M", "Mres", "Mtxn", "Dres", "Minfix"}, Depth: 3, Ops: []string{"deliver0", "deliver1", "ackold"}, Backend: "file"}), Bound: 0, Shards: 4, Note: "reserved / transaction keys under file metadata"},
+				{Scenario: "pipe", Params: mustJSON(PipeParams{Mode: "gen", Alphabet: []string{"M", "Mres", "Mtxn", "Dres", "Minfix"}, Depth: 3, Ops: []string{"deliver0", "deliver1", "ackold"}, MetaBucket: true}), Bound: 0, Shards: 4, Note: "reserved / transaction keys with the checkpoints in a second bucket"},
+				{Scenario: "c14_loop", Params: mustJSON(LoopParams{Depth: d, Rebalance: true}), Bound: 0, Shards: 8, Note: "alphabet extended by a real Rebalance()"},
 				{Scenario: "c14_loop", Params: mustJSON(LoopParams{Depth: d, Failover: true}), Bound: 0, Shards: 8, Note: "alphabet extended by a fail-over without rollback (transient end, re-open under a new vbUUID)"},
 				{Scenario: "c14_loop", Params: mustJSON(LoopParams{Sched: true}), Bound: b, Shards: 8, Note: "fixed history deliver,ack,commit,tick,tick over all schedules within the bound"},
 			}
@@ -204,7 +211,7 @@ func loopMain(p LoopParams) {
 			vrt.Window(op >= 3)
 		} else {
 			nops := 5
-			if p.Failover {
+			if p.Failover || p.Rebalance {
 				nops = 6
 			}
 			op = vrt.Choose(nops, true, "loop-op")
@@ -244,7 +251,15 @@ func loopMain(p LoopParams) {
 		case 4:
 			vrt.Sleep(o.CheckpointInterval + 1)
 			hist = append(hist, "tick")
-		case 5: // fail-over without rollback: both vBuckets go on under a new vbUUID after a transient end
+		case 5:
+			if p.Rebalance {
+				e.Stream.Rebalance()
+				vrt.Sleep(o.RebalanceDelay + time.Second)
+				vrt.Quiesce()
+				hist = append(hist, "rebalance")
+				break
+			}
+			// fail-over without rollback: both vBuckets go on under a new vbUUID after a transient end
 			failovers++
 			for vb := uint16(0); vb < 2; vb++ {
 				c.Vb[vb].Failover = append([]gocbcore.FailoverEntry{{VbUUID: gocbcore.VbUUID(5000 + failovers), SeqNo: gocbcore.SeqNo(c.Vb[vb].High)}}, c.Vb[vb].Failover...)
